@@ -10,11 +10,14 @@ git -C /repo worktree remove --force "$wt" >/dev/null 2>&1; rm -rf "$wt"
 git -C /repo worktree add -q --detach "$wt" HEAD || exit 2
 cd "$wt" || exit 2
 tags=""; [ -f "$d/demo.tags" ] && tags="-tags $(cat "$d/demo.tags")"
-pk=$(grep -m1 '^package ' "$d/demo_test.go" | awk '{print $2}')
+pk=$(grep -m1 '^package ' "$d/demo_test.go" 2>/dev/null | awk '{print $2}')
 case "$pk" in xxh32) demodir=internal/xxh32;; lz4block) demodir=internal/lz4block;; lz4stream) demodir=internal/lz4stream;; *) demodir=.;; esac
-runpat="^($(grep -o '^func Test[A-Za-z0-9_]*' "$d/demo_test.go" | sed 's/func //' | paste -sd'|'))\$"
+runpat="^($(grep -o '^func Test[A-Za-z0-9_]*' "$d/demo_test.go" 2>/dev/null | sed 's/func //' | paste -sd'|'))\$"
 pkgs=". ./internal/..."
-if [ -f "$d/run.sh" ]; then
+if [ -f "$d/demo.sh" ]; then
+  # self-contained shell demonstration taking the worktree in W
+  run_demo() { W="$wt" sh "$d/demo.sh" >"$1" 2>&1; }
+elif [ -f "$d/run.sh" ]; then
   # script-style demonstration (expects to live in <worktree>/mutant/<k>/)
   run_demo() { mkdir -p mutant/k9; cp -r "$d"/run.sh "$d"/demo mutant/k9/ 2>/dev/null; sh mutant/k9/run.sh >"$1" 2>&1; rc=$?; rm -rf mutant; return $rc; }
 else
